@@ -470,7 +470,16 @@ impl GroupAggregator {
                 let average = sum.map_numeric(
                     |x| Some(x / *count),
                     |x| Some(x / *count as f64),
-                    |x| Some(x / *count as i32)
+                    |x| {
+                        // The total number of nanoseconds is divided exactly; `TimeDelta / i32` divides the seconds and
+                        // the nanoseconds apart (1.002 s / 3 became 0.333999999 s) and takes the count as i32
+                        let total = x.num_seconds() as i128 * 1_000_000_000 + x.subsec_nanos() as i128;
+                        let average = total / *count as i128;
+                        Some(
+                            IntervalType::seconds((average / 1_000_000_000) as i64)
+                                + IntervalType::nanoseconds((average % 1_000_000_000) as i64)
+                        )
+                    }
                 );
 
                 Ok(average)
